@@ -6,7 +6,8 @@ Record seen := mkSeen {
   n_offer : N;        (* 0 none; 1 session_ticket body non-empty; 2 pre_shared_key present *)
   n_ems : bool;       (* hello carries extended_master_secret *)
   n_hrr : bool;
-  n_cache : list (N * option (N * N * bool))  (* per server name: cached (version, suite, ems) after the connection *)
+  n_cache : list (N * option (N * N * bool * N))  (* per cache key: cached (version, suite, ems, client createdAt) after the connection;
+                                                   createdAt shows whether the entry was renewed by this connection *)
 }.
 
 (* a connection given by reference into the history's tables of specs and servers (keeps the case terms small) *)
@@ -32,11 +33,11 @@ Definition class_of (o : outcome) : N :=
 Definition offer_code (o : obs) : N :=
   match o_offer o with None => 0 | Some (ViaTicket, _) => 1 | Some (ViaPsk, _) => 2 end.
 
-Definition cache_eqb (ca : cache) (want : list (N * option (N * N * bool))) : bool :=
+Definition cache_eqb (ca : cache) (want : list (N * option (N * N * bool * N))) : bool :=
   forallb (fun w =>
     match lookup (fst w) ca, snd w with
     | None, None => true
-    | Some s, Some (v, su, e) => (s_vers s =? v) && (s_suite s =? su) && Bool.eqb (s_ems s) e
+    | Some s, Some (v, su, e, cr) => (s_vers s =? v) && (s_suite s =? su) && Bool.eqb (s_ems s) e && (s_created s =? cr)
     | _, _ => false
     end) want.
 
